@@ -177,6 +177,7 @@ func printOps(full bool) []Op {
 		mkPrint(redact.Safe("s" + mEnd)),
 		mkPrint(1, 2),
 		mkPrint(redact.RedactableString("a" + mStart + "b" + mEnd + "\n" + mStart + "c" + mEnd + "d")),
+		mkPrint(redact.RedactableBytes(mStart + "b" + mEnd + "e")),
 		mkPrint(panicStringer{"boom" + mStart}),
 		mkPrintf("%d-%s", 5, "u"),
 		mkPrintf("lit"+mStart+"%v", redact.Safe("s")),
@@ -197,6 +198,46 @@ func printOps(full bool) []Op {
 		)
 	}
 	return ops
+}
+
+// sigmaNum: the numeric SafeWriter calls at the extremes of their domains (the decimal rendering is shared
+// between implementations only by convention), with a few neighbours to sit between.
+func sigmaNum() []Op {
+	mk := func(k opKind, name string, text string) Op {
+		return Op{K: k, Class: 'S', Text: []byte(text), Valid: true, Name: name}
+	}
+	var ops []Op
+	for _, n := range []int64{math.MinInt64, math.MaxInt64, -1, 0, 1 << 31, -(1 << 31) - 1} {
+		o := mk(kSafeInt, fmt.Sprintf("SafeInt(%d)", n), fmt.Sprint(n))
+		o.N = n
+		ops = append(ops, o)
+	}
+	for _, u := range []uint64{0, math.MaxUint64, 1 << 63, 1<<63 - 1, 1 << 32, 0xdeadbeefcafef00d} {
+		o := mk(kSafeUint, fmt.Sprintf("SafeUint(%d)", u), fmt.Sprint(u))
+		o.N = int64(u)
+		ops = append(ops, o)
+	}
+	for _, f := range []float64{math.NaN(), math.Inf(1), math.Inf(-1), math.MaxFloat64, math.SmallestNonzeroFloat64, 1e21, 1e20, 1e-7, 0.1, float64(float32(0.1)), negZero, 123456789.125} {
+		o := mk(kSafeFloat, fmt.Sprintf("SafeFloat(%v)", f), fmt.Sprint(f))
+		o.F = f
+		ops = append(ops, o)
+	}
+	for _, b := range []byte{0, 0x7f, 0x80, 0xff} {
+		ops = append(ops, mkByteOp(kSafeByte, b), mkByteOp(kUnsafeByte, b))
+	}
+	for _, r := range []rune{0, 0x7f, 0x80, 0x7ff, 0x800, 0xffff, 0x10000, 0x10ffff} {
+		ops = append(ops, mkRuneOp(kSafeRune, r), mkRuneOp(kUnsafeRune, r))
+	}
+	ops = append(ops, mkOp(kSafeString, "s"), mkOp(kUnsafeString, "u"), mkOp(kUnsafeString, ""))
+	return ops
+}
+
+// sigmaNamed selects the alphabet a replay file refers to.
+func sigmaNamed(alpha string, full, withInvalid bool) []Op {
+	if alpha == "num" {
+		return sigmaNum()
+	}
+	return sigma(full, withInvalid)
 }
 
 // sigmaQ: the quick alphabet (~100 ops); sigmaFull: the thorough one.
